@@ -112,6 +112,9 @@ func build() (*world, error) {
 			v.AddRef(folder, rt, false)
 			v.AddRef(ns0.Node(ua.NewNumericNodeID(0, id.BaseDataVariableType)), server.RefType(id.HasTypeDefinition), true)
 		}
+		// two DIFFERENT references to the same target (another type; the inverse direction)
+		folder.AddRef(ns1.Node(ua.NewNumericNodeID(ns1.ID(), 5001)), id.Organizes, true)
+		folder.AddRef(ns1.Node(ua.NewNumericNodeID(ns1.ID(), 5002)), id.HasProperty, false)
 		// a reference whose recorded class goes stale: the target's class is changed afterwards
 		late := server.NewVariableNode(ua.NewNumericNodeID(ns1.ID(), 5010), "late", int32(7))
 		ns1.AddNode(late)
@@ -125,7 +128,13 @@ func build() (*world, error) {
 	if err != nil {
 		return nil, err
 	}
-	// dump
+	w.dump()
+	return w, nil
+}
+
+// dump reads the reference lists of all nodes and recomputes the Go-side closure.
+func (w *world) dump() {
+	w.refs, w.closure, w.order, w.skipped = map[uint64][]ref{}, map[uint64]map[uint64]bool{}, nil, 0
 	for nsi := 0; nsi < 2; nsi++ {
 		ns, _ := w.srv.Namespace(nsi)
 		nn := ns.(*server.NodeNameSpace)
@@ -191,7 +200,6 @@ func build() (*world, error) {
 		}
 		w.closure[k] = seen
 	}
-	return w, nil
 }
 
 type bcase struct {
@@ -685,8 +693,48 @@ func main() {
 	if x := e.w.browseInProc(c); !strings.Contains(x, fmt.Sprintf(":%d", uint64(1<<32|5010))) && strings.Contains(strings.Join(e.expected(c), " "), fmt.Sprintf(":%d", uint64(1<<32|5010))) {
 		r.Confirm(sigStale, "folder ns=1;i=5000 references ns=1;i=5010 recorded as Variable; the node's class is Object now; Browse with NodeClassMask=Object omits it (also in the standard address space: i=2253 -> i=2255 recorded Variable, node says Object)")
 	}
+	// (4) the hierarchy changes while the server runs: a new reference type below HasComponent is
+	// added AFTER the browses above, a node gets a reference of that type, and the supertypes must
+	// select it (oracle only: the generated table of the model describes the hierarchy at start-up)
+	{
+		ns0, _ := w.srv.Namespace(0)
+		ns1i, _ := w.srv.Namespace(1)
+		ns1 := ns1i.(*server.NodeNameSpace)
+		nt := server.NewNode(ua.NewNumericNodeID(ns1.ID(), 6000), map[ua.AttributeID]*ua.DataValue{
+			ua.AttributeIDNodeClass:  server.DataValueFromValue(uint32(ua.NodeClassReferenceType)),
+			ua.AttributeIDBrowseName: server.DataValueFromValue(&ua.QualifiedName{NamespaceIndex: ns1.ID(), Name: "HasVerifPart"}),
+		}, nil, nil)
+		ns1.AddNode(nt)
+		hc := ns0.Node(ua.NewNumericNodeID(0, id.HasComponent))
+		hc.AddRef(nt, id.HasSubtype, true)
+		nt.AddRef(hc, id.HasSubtype, false)
+		folder := ns1.Node(ua.NewNumericNodeID(ns1.ID(), 5000))
+		target := ns1.Node(ua.NewNumericNodeID(ns1.ID(), 5003))
+		newType, _ := key(nt.ID())
+		// AddRef takes a ns-0 numeric type; build the reference by hand for the new type
+		refs := folder.VerifRefs()
+		proto := *refs[len(refs)-1]
+		proto.ReferenceTypeID = nt.ID()
+		proto.IsForward = true
+		proto.NodeID = ua.NewExpandedNodeID(target.ID(), "", 0)
+		proto.NodeClass = target.NodeClass()
+		folder.VerifAppendRef(&proto)
+		w.dump()
+		d2 := e.d
+		e.d = nil // no model for the changed hierarchy
+		for _, rt := range []uint64{id.HasComponent, id.Aggregates, id.HasChild, id.HierarchicalReferences, id.References, newType, id.Organizes, 0} {
+			for _, sub := range []bool{true, false} {
+				for dir := 0; dir < 3; dir++ {
+					c := bcase{1<<32 | 5000, dir, rt, sub, 0}
+					e.one(c)
+					r.Hit("late-subtype-phase")
+				}
+			}
+		}
+		e.d = d2
+	}
 	for _, b := range []string{"dir:0", "dir:1", "dir:2", "sub:true", "sub:false", "reftype:none", "reftype:with-subtypes", "reftype:leaf-or-unknown",
-		"mask:0", "mask:set", "result:empty", "result:refs", "srt:yes", "srt:no", "wire:ok"} {
+		"mask:0", "mask:set", "result:empty", "result:refs", "srt:yes", "srt:no", "wire:ok", "late-subtype-phase"} {
 		if r.Distribution[b] == 0 {
 			r.Unreached = append(r.Unreached, b)
 		}
